@@ -7,6 +7,9 @@ import (
 
 // Now returns the current time in UTC with no monotonic component.
 func Now() time.Time {
+	if t, ok := verifNow(); ok {
+		return Canonical(t)
+	}
 	return Canonical(time.Now())
 }
 
